@@ -563,11 +563,14 @@ class MyPyAstVisitor:
                     ),
                 )
         else:
+            # Every docstring entry names at most one result
+            unmatched_docstrings = list(result_docstrings)
             for type_ in return_results:
                 result_docstring = ResultDocstring()
-                for docstring in result_docstrings:
+                for docstring in unmatched_docstrings:
                     if hash(docstring.type) == hash(type_):
                         result_docstring = docstring
+                        unmatched_docstrings.remove(docstring)
                         break
 
                 result_name = result_docstring.name or next(name_generator)
